@@ -615,10 +615,13 @@ Proof. unfold pool_ctx_new. apply pool_acquire_indep. exact pool_read_fields_in_
 Lemma pool_ctx_clone_indep g1 g2 c : pool_ctx_clone g1 c = pool_ctx_clone g2 c.
 Proof. unfold pool_ctx_clone. apply pool_acquire_indep. exact pool_read_fields_in_reset_clone. Qed.
 
+Lemma pool_macro_ctx_indep g1 g2 c mpl arg : pool_macro_ctx g1 c mpl arg = pool_macro_ctx g2 c mpl arg.
+Proof. unfold pool_macro_ctx. rewrite (pool_ctx_new_indep g1 g2). reflexivity. Qed.
+
 Lemma pool_eval_ext rv1 rv2 g1 g2 : (forall n, rv1 n = rv2 n) ->
-  forall fuel root c ns gas, pool_eval fuel rv1 g1 root c ns gas = pool_eval fuel rv2 g2 root c ns gas.
+  forall fuel root c cur ns gas, pool_eval fuel rv1 g1 root c cur ns gas = pool_eval fuel rv2 g2 root c cur ns gas.
 Proof.
-  intro Hrv. induction fuel as [|f IH]; intros root c ns gas; [reflexivity|].
+  intro Hrv. induction fuel as [|f IH]; intros root c cur ns gas; [reflexivity|].
   cbn [pool_eval]. destruct gas as [|gas0]; [reflexivity|]. destruct root.
   - destruct (negb (pool_touch c _)); [reflexivity|].
     destruct (pool_find_extends ns) as [t|]; [|apply IH].
@@ -637,11 +640,13 @@ Proof.
       + apply IH.
       + rewrite <- (Hrv (pool_pl pl 0)). destruct (rv1 (pool_pl pl 0)) as [mns|er|]; [|reflexivity|reflexivity].
         rewrite (pool_ctx_new_indep (g1 f) (g2 f) []). rewrite IH.
-        destruct (pool_eval f rv2 g2 true _ mns gas0) as [[r l1] gas2]. destruct r; try reflexivity.
-        destruct (pool_find_macro mns (pool_pl pl 1)); [|reflexivity].
+        destruct (pool_eval f rv2 g2 true _ mns mns gas0) as [[r l1] gas2]. destruct r; try reflexivity.
+        destruct (pool_find_macro mns (pool_pl pl 1)) as [[mpl body]|]; [|reflexivity].
         destruct (negb (pool_touch c _)); [reflexivity|].
-        rewrite (pool_ctx_new_indep (g1 f) (g2 f)), IH. reflexivity.
-      + apply IH. }
+        rewrite (pool_macro_ctx_indep (g1 f) (g2 f)), IH. reflexivity.
+      + apply IH.
+      + destruct (pool_find_macro cur (pool_pl pl 0)) as [[mpl body]|]; [|reflexivity].
+        rewrite (pool_macro_ctx_indep (g1 f) (g2 f)). apply IH. }
     rewrite E.
     match goal with |- (let '(this, gas1) := ?B in _) = _ => destruct B as [[r l] gas1] end.
     destruct r; try reflexivity. rewrite IH. reflexivity.
@@ -743,7 +748,7 @@ Lemma C01_result_is_function_of_registrations_proof : forall st orc g ops e n va
                     pool_seq (PROut [], [n])
                       (fst (pool_eval pool_eval_fuel (pool_spec_resolve st (pool_last_reg ops) e) pool_garbage_none true
                          (pool_cset (pool_ctx_new (pool_garbage_none pool_eval_fuel) (map (fun xv => (fst xv, Some (snd xv))) vars))
-                                    b#"lastLoadedTemplate" FVPtr) ns pool_eval_gas))
+                                    b#"lastLoadedTemplate" FVPtr) ns ns pool_eval_gas))
                   end)).
 Proof.
   intros. rewrite pool_cfg_gen_safe, pool_render_obs_eq.
@@ -823,20 +828,23 @@ Qed.
 Ltac pool_touch_ok H :=
   match goal with |- context [pool_touch ?c ?l] => rewrite (pool_full_touch c l H (eq_refl true)); cbn [negb] end.
 
+Lemma pool_full_macro_ctx g0 c mpl arg : pool_ctx_full (pool_macro_ctx g0 c mpl arg).
+Proof. unfold pool_macro_ctx. do 3 apply pool_full_cset. apply pool_full_new. Qed.
+
 Lemma pool_eval_no_garbage rv g : (forall n, rv n <> PLBad) ->
-  forall fuel root c ns gas, pool_ctx_full c -> fst (fst (pool_eval fuel rv g root c ns gas)) <> PRGarbage.
+  forall fuel root c cur ns gas, pool_ctx_full c -> fst (fst (pool_eval fuel rv g root c cur ns gas)) <> PRGarbage.
 Proof.
-  intro Hrv. induction fuel as [|f IH]; intros root c ns gas Hc; [simpl; discriminate|].
+  intro Hrv. induction fuel as [|f IH]; intros root c cur ns gas Hc; [simpl; discriminate|].
   cbn [pool_eval]. destruct gas as [|gas0]; [simpl; discriminate|]. destruct root.
   - pool_touch_ok Hc.
     assert (Hc1 : pool_ctx_full (pool_cset c b#"blockChain" (FVChain (pool_collect_all ns (pool_defs_of (pool_cget c b#"blockChain")))))) by (apply pool_full_cset; exact Hc).
     destruct (pool_find_extends ns) as [t|]; [|apply IH; exact Hc1].
     pool_touch_ok Hc1.
     destruct (rv t) as [pns|er|] eqn:Et; [|simpl; discriminate|exfalso; exact (Hrv t Et)].
-    match goal with |- context [pool_eval f rv g true ?pc pns gas0] =>
-      assert (Hp := IH true pc pns gas0); destruct (pool_eval f rv g true pc pns gas0) as [[r l] gas1] end.
+    match goal with |- context [pool_eval f rv g true ?pc pns pns gas0] =>
+      assert (Hp := IH true pc pns pns gas0); destruct (pool_eval f rv g true pc pns pns gas0) as [[r l] gas1] end.
     cbn [fst]. apply pool_seq_no_garbage; [simpl; discriminate|].
-    apply Hp. do 4 apply pool_full_cset. apply pool_full_new.
+    apply Hp. do 5 apply pool_full_cset. apply pool_full_new.
   - destruct ns as [|[k pl cs] rest]; [simpl; discriminate|].
     match goal with |- fst (fst (let '(this, gas1) := ?A in _)) <> _ => assert (HA : fst (fst A) <> PRGarbage) end.
     { destruct (N.eqb k pk_text); [simpl; discriminate|].
@@ -846,30 +854,32 @@ Proof.
       destruct (N.eqb k pk_include).
       { pool_touch_ok Hc. destruct (rv (pool_pl pl 0)) as [ins|er|] eqn:Et; [| |exfalso; exact (Hrv _ Et)].
         - pool_touch_ok Hc.
-          match goal with |- context [pool_eval f rv g true ?ic ins gas0] =>
-            assert (Hp := IH true ic ins gas0); destruct (pool_eval f rv g true ic ins gas0) as [[r l] gas2] end.
+          match goal with |- context [pool_eval f rv g true ?ic ins ins gas0] =>
+            assert (Hp := IH true ic ins ins gas0); destruct (pool_eval f rv g true ic ins ins gas0) as [[r l] gas2] end.
           cbn [fst]. apply pool_seq_no_garbage; [simpl; discriminate|]. apply Hp. apply pool_full_cset, pool_full_clone.
         - destruct er; try (simpl; discriminate). destruct (N.eqb (pool_pl pl 1) 0); simpl; discriminate. }
       destruct (N.eqb k pk_block); [pool_touch_ok Hc; apply IH; exact Hc|].
       destruct (N.eqb k pk_macro); [pool_touch_ok Hc; simpl; discriminate|].
       destruct (N.eqb k pk_call).
       { pool_touch_ok Hc. destruct (rv (pool_pl pl 0)) as [mns|er|] eqn:Et; [|simpl; discriminate|exfalso; exact (Hrv _ Et)].
-        match goal with |- context [pool_eval f rv g true ?ic mns gas0] =>
-          assert (Hp := IH true ic mns gas0 (pool_full_cset _ _ _ (pool_full_new _ _)));
-          destruct (pool_eval f rv g true ic mns gas0) as [[r l1] gas2] end.
+        match goal with |- context [pool_eval f rv g true ?ic mns mns gas0] =>
+          assert (Hp := IH true ic mns mns gas0 (pool_full_cset _ _ _ (pool_full_new _ _)));
+          destruct (pool_eval f rv g true ic mns mns gas0) as [[r l1] gas2] end.
         cbn [fst] in Hp. destruct r; try (simpl; discriminate); [|exfalso; apply Hp; reflexivity].
-        destruct (pool_find_macro mns (pool_pl pl 1)) as [body|]; [|simpl; discriminate].
+        destruct (pool_find_macro mns (pool_pl pl 1)) as [[mpl body]|]; [|simpl; discriminate].
         pool_touch_ok Hc.
-        match goal with |- context [pool_eval f rv g false ?mc body gas2] =>
-          assert (Hq := IH false mc body gas2); destruct (pool_eval f rv g false mc body gas2) as [[r3 l3] gas3] end.
-        cbn [fst]. apply pool_seq_no_garbage; [simpl; discriminate|]. apply Hq.
-        do 3 apply pool_full_cset. apply pool_full_new. }
+        match goal with |- context [pool_eval f rv g false ?mc mns body gas2] =>
+          assert (Hq := IH false mc mns body gas2 (pool_full_macro_ctx _ _ _ _)); destruct (pool_eval f rv g false mc mns body gas2) as [[r3 l3] gas3] end.
+        cbn [fst]. apply pool_seq_no_garbage; [simpl; discriminate|]. exact Hq. }
       destruct (N.eqb k pk_if).
       { pool_touch_ok Hc. destruct (pool_truthy _); [apply IH; exact Hc|simpl; discriminate]. }
+      destruct (N.eqb k pk_lcall).
+      { pool_touch_ok Hc. destruct (pool_find_macro cur (pool_pl pl 0)) as [[mpl body]|]; [|simpl; discriminate].
+        apply IH. apply pool_full_macro_ctx. }
       simpl; discriminate. }
     match goal with |- fst (fst (let '(this, gas1) := ?A in _)) <> _ => destruct A as [[r l] gas1] end.
     cbn [fst] in HA. destruct r; cbn [fst]; try assumption; try discriminate.
-    assert (Hr := IH false c rest gas1 Hc). destruct (pool_eval f rv g false c rest gas1) as [[r2 l2] gas4].
+    assert (Hr := IH false c cur rest gas1 Hc). destruct (pool_eval f rv g false c cur rest gas1) as [[r2 l2] gas4].
     cbn [fst] in *. apply (pool_seq_no_garbage (PROut out, l) (r2, l2)); [simpl; discriminate|exact Hr].
 Qed.
 
